@@ -10,6 +10,7 @@
 WORLDS = {
     "exec": {},
     "mod": {},
+    "gossip": {"shims": {"kv/memberlist/zz_verif_sim.go": "shims/memberlist_sim.go"}},
     "merge": {},
     "ring": {"extra_pkgs": ["simkv"], "simos": ["ring/tokens.go", "ring/lifecycler.go", "ring/basic_lifecycler_delegates.go"]},
     "cache": {},
@@ -156,6 +157,34 @@ PROPS["C03"] = {
     "level_text": "seeded exploration of delivery orders, groupings, multiplicities and delta-only feeds over a small universe of updates; per-merge and end-state oracles; sampling, not proof",
     "level_note": "trusted: simulator engine (choice vector, shrinking), the 10-line newest-timestamp-wins reference",
     "design_ref": "DESIGN.md section 5 C03",
+}
+
+_GOSSIP_REAL = ["kv/memberlist.KV (store, CAS, mergeValueForKey, broadcast queues + ringBroadcast.Invalidates, per-key workers, watchers, notifications, tombstone GC, obsolete-entry cleanup, running loop)", "kv/memberlist.Client", "hashicorp TransmitLimitedQueue", "ring.Desc / PartitionRingDesc Merge, codecs", "ring.Ring lookups over each node's visible state"]
+_GOSSIP_STUB = ["hashicorp/memberlist SWIM protocol, membership, TCP transport, DNS join: replaced by the harness network (NewSimKV shim; the harness calls GetBroadcasts / NotifyMsg / LocalState / MergeRemoteState)", "writers (one per ring entry), partition-ring editors, operator forget"]
+_GOSSIP_ASSUME = _ASSUME_COMMON + ["one writer per entry and a new timestamp for every content change (the proviso of C03), instances are not re-registered under the same id within a run", "messages delayed longer than half the tombstone retention are discarded by the simulated network (the statement bounds delays below the retention)", "hashicorp/memberlist itself is stubbed: the properties are decided for dskit's delegate / KV layer under an adversarial network"]
+PROPS["C06"] = {
+    "world": "gossip", "level": "exploration", "quick_s": 25, "thorough_s": 600,
+    "rule": "one evaluation = one history of a 2..6 node gossip cluster: writers and partition-ring editors issue CAS on their nodes (interleaved at the read/modify/write point), gossip packets (large and tiny size limits), push/pull exchanges in either direction, per message drop / duplicate / delay / reorder / corrupt (truncated, garbage, empty key, unknown codec, short push/pull frame), partitions and heals, node restarts, watcher registration and cancellation, clock advances; then faults stop and fair gossip rounds plus two full push/pull rounds run: all live nodes must show the same value for every key, acknowledged CAS must be reflected, watchers must hold the final value; scenario 'rebroadcast-only' has no push/pull and no loss (only delay / reorder / duplication, round-robin targets) and must converge by rebroadcast alone; non-trivial = at least one dropped message and one heal/restart before quiescence (cluster) or more than 5 gossip packets (rebroadcast-only); distinct = distinct action sequence hash among non-trivial runs",
+    "real": _GOSSIP_REAL, "stub": _GOSSIP_STUB, "assumptions": _GOSSIP_ASSUME,
+    "level_text": "seeded exploration of message fault sequences and interleavings over the real gossip KV; safety oracles after every step, convergence / reflection / watcher oracles after a stated quiescence budget; sampling, not proof",
+    "level_note": "trusted: simulator engine, the harness network, an independent decoder deciding which messages are malformed",
+    "design_ref": "DESIGN.md section 5 C06",
+}
+PROPS["C04"] = {
+    "world": "gossip", "level": "exploration", "quick_s": 25, "thorough_s": 600,
+    "rule": "one evaluation = one gossip-cluster history biased towards removals: instances heartbeat, change state, unregister (or are forgotten by the operator on any node showing them), in the same second as the last heartbeat or later; every message produced before a removal may be delivered arbitrarily late (up to half the retention), duplicated and reordered; after every step on every node: readers and watchers never see LEFT / deleted entries, an entry whose tombstone a node holds never becomes visible on that node while the tombstone is there, a tombstone disappears only when older than the retention; after quiescence all nodes agree; non-trivial = a message sent before a removal was delivered to a node already holding the tombstone; distinct = distinct action sequence hash among non-trivial runs",
+    "real": _GOSSIP_REAL, "stub": _GOSSIP_STUB, "assumptions": _GOSSIP_ASSUME,
+    "level_text": "seeded exploration of removal / late-delivery interleavings over the real gossip KV with per-step tombstone invariants; sampling, not proof",
+    "level_note": "trusted: simulator engine, harness network, raw-state inspection through the SimStore shim (deep copy of the store)",
+    "design_ref": "DESIGN.md section 5 C04",
+}
+PROPS["C05"] = {
+    "world": "gossip", "level": "exploration", "quick_s": 25, "thorough_s": 600,
+    "rule": "one evaluation = one gossip-cluster history in which writers deliberately pick overlapping tokens from a 6-value alphabet (0, 1, 2, 7, 2^32-2, 2^32-1), in all states incl. LEAVING, with unsorted / duplicated incoming token lists, interleaved with local CAS; after every step on every node's raw state: no token in two entries that have not left, token lists sorted and duplicate-free; on the merge step that creates a collision the winner rule is evaluated (leaving loses, else smaller id); the state every node shows is fed to ring clients (zone-aware and not) and queried: no ErrInconsistentTokensInfo, no panic; non-trivial = at least one collision was resolved; distinct = distinct action sequence hash among non-trivial runs",
+    "real": _GOSSIP_REAL, "stub": _GOSSIP_STUB, "assumptions": _GOSSIP_ASSUME + ["the winner rule is evaluated on single-message deliveries (the step that creates the collision), which is the unambiguous reading of 'resolved to the same winner'"],
+    "level_text": "seeded exploration of colliding token claims merged in all orders over the real gossip KV; per-step uniqueness invariant and winner rule; sampling, not proof",
+    "level_note": "trusted: simulator engine, harness network, the 25-line winner function written from the statement",
+    "design_ref": "DESIGN.md section 5 C05",
 }
 
 HOOK_COMMITS = []
